@@ -198,12 +198,45 @@ pub fn set_rcvbuf(fd: i32, bytes: i32) {
     }
 }
 
+/// A client socket on an ephemeral source port -- except that one in eight (when the harness may
+/// bind them: root) sits on a well-known port below 1024 or at the very top of the range: where a
+/// request comes from must make no difference to how it, or its neighbours in the batch, are
+/// answered.
 pub fn client_socket() -> UdpSocket {
-    let s = UdpSocket::bind("127.0.0.1:0").expect("bind client socket");
+    static N: std::sync::atomic::AtomicU64 = std::sync::atomic::AtomicU64::new(0);
+    let n = N.fetch_add(1, std::sync::atomic::Ordering::Relaxed);
+    let mut s = None;
+    if n % 8 == 3 {
+        let shard = crate::procs::PORT_SHARD.load(std::sync::atomic::Ordering::Relaxed) as u64 % 20;
+        let cands = [600 + shard * 20 + (n / 8) % 20, 123, 53, 1023 - shard, 65535 - shard];
+        for c in cands {
+            if let Ok(x) = UdpSocket::bind(("127.0.0.1", c as u16)) {
+                LOW_PORT_SOCKETS.fetch_add((c < 1024) as u64, std::sync::atomic::Ordering::Relaxed);
+                s = Some(x);
+                break;
+            }
+        }
+    }
+    let s = s.unwrap_or_else(|| UdpSocket::bind("127.0.0.1:0").expect("bind client socket"));
     set_rcvbuf(s.as_raw_fd(), 2 << 20);
     s.set_nonblocking(true).unwrap();
     s
 }
+
+/// a socket on a well-known source port (None when none can be bound)
+pub fn client_socket_low_port() -> Option<UdpSocket> {
+    let shard = crate::procs::PORT_SHARD.load(std::sync::atomic::Ordering::Relaxed) as u16 % 20;
+    for c in [1023 - shard, 980 - shard, 123, 53, 940 - shard] {
+        if let Ok(x) = UdpSocket::bind(("127.0.0.1", c)) {
+            LOW_PORT_SOCKETS.fetch_add(1, std::sync::atomic::Ordering::Relaxed);
+            return Some(x);
+        }
+    }
+    None
+}
+
+/// how many client sockets of this process were bound to a port below 1024
+pub static LOW_PORT_SOCKETS: std::sync::atomic::AtomicU64 = std::sync::atomic::AtomicU64::new(0);
 
 /// kernel drop counter of the UDP socket bound to `port` (column `drops` of /proc/net/udp)
 pub fn udp_drops(port: u16) -> Option<u64> {
